@@ -534,6 +534,12 @@ func (c *handlerCtx) handleCall() {
 			c.stat = stat
 		}
 		if stat.Code() != CodeConnClosed {
+			if age := c.sess.ContextAge(); age > 0 && c.output.Context().Err() != nil {
+				// the handling time is used up: the error reply gets a time limit of its own,
+				// otherwise the call would be dropped without an answer
+				ctxTimout, _ := context.WithTimeout(context.Background(), age)
+				socket.WithContext(ctxTimout)(c.output)
+			}
 			c.writeReply(statInternalServerError.Copy(stat.Cause()))
 		}
 		return
